@@ -164,18 +164,26 @@ theorem uninstallG_node_g (c : FastOps) (node : Node) (a : Cursor) :
 /-- `install` seen through the global view -/
 def installG (c : FastOps) (p : Nat) (op : Op) (a : Cursor) : FastOps := installGlobal c p op [] [] a
 
+theorem installNextP_g (c : FastOps) (a : Cursor) : installNextP c.g a = installNextP c a := by
+  unfold installNextP
+  cases a.lastP with
+  | none => rfl
+  | some lp => simp only [getNode_g]; cases c.getNode lp <;> rfl
+
+theorem installGlobalCore_g (c : FastOps) (p : Nat) (node : Node) :
+    (installGlobalCore c p node).g = installGlobalCore c.g p node.g := by
+  unfold installGlobalCore
+  have e1 : node.g.previousP = node.previousP := rfl
+  have e2 : node.g.nextP = node.nextP := rfl
+  have e3 : node.g.op = node.op := rfl
+  rw [e1, e2, e3]
+  cases node.previousP <;> cases node.nextP <;> simp
+
 theorem installGlobal_g (c : FastOps) (p : Nat) (op : Op) (prevs nexts) (a : Cursor) :
     (installGlobal c p op prevs nexts a).g = installGlobal c.g p op [] [] a := by
   unfold installGlobal
-  have hb : ∀ lp, (c.g.getNode lp).bind (·.nextP) = (c.getNode lp).bind (·.nextP) := by
-    intro lp; rw [getNode_g]; cases c.getNode lp <;> rfl
-  cases hl : a.lastP with
-  | none =>
-    simp only [g_pEnds]
-    cases hn : c.pEnds.map (·.1) <;> simp [Node.g]
-  | some lp =>
-    simp only [hb]
-    cases hn : (c.getNode lp).bind (·.nextP) <;> simp [Node.g]
+  rw [installGlobalCore_g, installNextP_g]
+  rfl
 
 theorem install_g (c : FastOps) (p : Nat) (op : Op) (a : Cursor) :
     (install c p op a).g = installG c.g p op a := by
@@ -215,6 +223,88 @@ theorem change_g (c : FastOps) (p : Nat) (new : Option Op) (a : Cursor) :
   cases hnew : new <;> cases hold : c.getNode p <;>
     simp [uninstall_g, install_g, fastInstall_g, apply_ite FastOps.g, uninstallG_node_g,
       show ∀ nd : Node, nd.g.op = nd.op from fun _ => rfl]
+
+theorem getNode_uninstallGlobal (c : FastOps) (nd : Node) (a : Cursor) (q : Nat) :
+    (uninstallGlobal c nd a).getNode q = (c.getNode q).map (fun x =>
+      { x with nextP := if a.lastP = some q then nd.nextP else x.nextP,
+               previousP := if nd.nextP = some q then a.lastP else x.previousP }) := by
+  unfold uninstallGlobal
+  cases hl : a.lastP <;> cases hn : nd.nextP <;> simp only [] <;> (try split) <;>
+    cases hq : c.getNode q <;> simp_all <;> (repeat' split) <;> simp_all
+
+theorem pEnds_uninstallGlobal (c : FastOps) (nd : Node) (a : Cursor) :
+    (uninstallGlobal c nd a).pEnds =
+      let pe1 := match a.lastP with
+        | some _ => c.pEnds
+        | none => (match c.pEnds with | some (_, tail) => nd.nextP.map (fun nh => (nh, tail)) | none => none)
+      match nd.nextP.bind (fun q => c.getNode q) with
+      | some _ => pe1
+      | none => (match pe1 with | some (head, _) => nd.previousP.map (fun nt => (head, nt)) | none => none) := by
+  unfold uninstallGlobal
+  cases hl : a.lastP <;> cases hn : nd.nextP <;> simp only [] <;> (try split) <;> simp_all <;> grind
+
+
+theorem n_uninstallGlobal (c : FastOps) (nd : Node) (a : Cursor) : (uninstallGlobal c nd a).n = c.n := by
+  unfold uninstallGlobal
+  cases hl : a.lastP <;> cases hn : nd.nextP <;> simp only [] <;> (try split) <;> simp
+
+theorem bc_uninstallGlobal (c : FastOps) (nd : Node) (a : Cursor) :
+    (uninstallGlobal c nd a).bondCounters = c.bondCounters := by
+  unfold uninstallGlobal
+  cases hl : a.lastP <;> cases hn : nd.nextP <;> simp only [] <;> (try split) <;> simp
+
+theorem length_uninstallGlobal (c : FastOps) (nd : Node) (a : Cursor) :
+    (uninstallGlobal c nd a).ops.length = c.ops.length := by
+  unfold uninstallGlobal
+  cases hl : a.lastP <;> cases hn : nd.nextP <;> simp only [] <;> (try split) <;> simp
+
+theorem varEnds_uninstallGlobal (c : FastOps) (nd : Node) (a : Cursor) :
+    (uninstallGlobal c nd a).varEnds = c.varEnds := by
+  unfold uninstallGlobal
+  cases hl : a.lastP <;> cases hn : nd.nextP <;> simp only [] <;> (try split) <;> simp
+
+theorem getNode_installGlobalCore (c : FastOps) (p : Nat) (node : Node) (q : Nat) :
+    (installGlobalCore c p node).getNode q =
+      if p = q ∧ p < c.ops.length then some node
+      else (c.getNode q).map (fun x =>
+        { x with nextP := if node.previousP = some q then some p else x.nextP,
+                 previousP := if node.nextP = some q then some p else x.previousP }) := by
+  unfold installGlobalCore
+  cases hl : node.previousP <;> cases hn : node.nextP <;> cases hq : c.getNode q <;> simp_all <;>
+    (repeat' split) <;> simp_all
+
+theorem pEnds_installGlobalCore (c : FastOps) (p : Nat) (node : Node) :
+    (installGlobalCore c p node).pEnds =
+      let pe1 := match node.previousP with
+        | some _ => c.pEnds
+        | none => (match c.pEnds with | some (_, tail) => some (p, tail) | none => some (p, p))
+      match node.nextP with
+      | some _ => pe1
+      | none => (match pe1 with | some (head, _) => some (head, p) | none => some (p, p)) := by
+  unfold installGlobalCore
+  cases hl : node.previousP <;> cases hn : node.nextP <;> simp_all <;>
+    (cases c.pEnds <;> rfl)
+
+theorem n_installGlobalCore (c : FastOps) (p : Nat) (node : Node) :
+    (installGlobalCore c p node).n = c.n + 1 := by
+  unfold installGlobalCore
+  cases hl : node.previousP <;> cases hn : node.nextP <;> simp
+
+theorem bc_installGlobalCore (c : FastOps) (p : Nat) (node : Node) :
+    (installGlobalCore c p node).bondCounters =
+      c.bondCounters.map (fun l => l.modify node.op.bond (· + 1)) := by
+  unfold installGlobalCore
+  cases hl : node.previousP <;> cases hn : node.nextP <;> simp
+
+theorem length_installGlobalCore (c : FastOps) (p : Nat) (node : Node) :
+    (installGlobalCore c p node).ops.length = c.ops.length := by
+  unfold installGlobalCore
+  cases hl : node.previousP <;> cases hn : node.nextP <;> simp
+
+theorem varEnds_installGlobalCore (c : FastOps) (p : Nat) (node : Node) :
+    (installGlobalCore c p node).varEnds = c.varEnds := by
+  unfold installGlobalCore
+  cases hl : node.previousP <;> cases hn : node.nextP <;> simp
 
 end FastOps
 end Qmc
